@@ -205,6 +205,30 @@ fn pipe_is_empty(w: &std::process::ChildStdin) -> bool {
     rc == 0 && n == 0
 }
 
+/// A panic report names the panicking thread with its id in the operating
+/// system ("thread 'main' (12345) panicked at"), which differs from process to
+/// process: the digits are replaced by '#'.
+pub fn neutralise_panic_thread_id(b: &[u8]) -> Vec<u8> {
+    let mut out = Vec::with_capacity(b.len());
+    let mut i = 0;
+    while i < b.len() {
+        if b[i] == b'(' {
+            let mut j = i + 1;
+            while j < b.len() && b[j].is_ascii_digit() {
+                j += 1;
+            }
+            if j > i + 1 && b[j..].starts_with(b") panicked at") && out.ends_with(b"' ") {
+                out.extend_from_slice(b"(#");
+                i = j;
+                continue;
+            }
+        }
+        out.push(b[i]);
+        i += 1;
+    }
+    out
+}
+
 pub fn contains(hay: &[u8], needle: &[u8]) -> bool {
     needle.is_empty() || hay.windows(needle.len()).any(|w| w == needle)
 }
